@@ -12,6 +12,12 @@ B2  sampled cases are emitted with their admissible set; each is concretised as 
     own edfa_nf as the noise figure.  The catalogue includes a model whose band EQUALS the design band (edges coincide),
     a quiet Raman model whose p_max is below the required power, and fibres whose per-frequency loss coefficient is
     above the Raman limit on part of the band only; cases without any capable model are sampled four times sparser.
+    The configured extended-gain allowance is 3 dB or 1 dB; p_max of the catalogue lies 0.1 dB below / above the
+    required power.  The library is used a SECOND time in the same design: next to an inline / preamp amplifier its
+    neighbour one span away (the COMPANION) is left to auto-design too, with the same lists and the same required gain
+    and power but the opposite Raman situation (0.3 dB/km fibre in front of it when the judged amplifier may use Raman
+    models, 0.2 dB/km otherwise).  The companion's selection is recorded and judged by Trace_AmpSelection on its own
+    context like any selection of B3; what the judged amplifier gets must not depend on it.
 B3  every select_edfa call made while designing the shipped networks (as shipped and with every amplifier turned into
     a placeholder), both modes, is recorded with the whole library, each model's edfa_nf at the target gain, the lists
     read from the element and the adjacent ROADMs, the targets and the choice; Trace_AmpSelection judges the choice.
@@ -28,7 +34,7 @@ from harness import designpower_util as U
 from harness.gnpy_util import TD
 
 BOUNDS = {
-    'quick': [dict(max_lib=2, wide=False, stride=48)],
+    'quick': [dict(max_lib=2, wide=False, stride=52)],
     'thorough': [dict(max_lib=3, wide=True, stride=149), dict(max_lib=4, wide=False, stride=1499)],
 }
 CLAUSES = ['ChosenPermitted', 'CoversBand', 'RamanOnlyIfAllowed', 'CapableIfPossible', 'QuietestCapable',
@@ -81,7 +87,12 @@ def library_json(lib, variable_gain):
     return out
 
 
-def concretise(js, variable_gain):
+def companion_of(c):
+    """index of the companion amplifier of the line (None: the judged amplifier has none)"""
+    return {INLINE: PREAMP, PREAMP: INLINE}.get(c['pos'])
+
+
+def concretise(js, variable_gain, companion=False):
     lib, c = js['lib'], js['c']
     own_grid = c['variant'] == 3          # design band of the degree declared on a 37.5 GHz grid (13 channels, SI grid: 10)
     eq = U.synthetic_equipment(library_json(lib, variable_gain),
@@ -119,6 +130,14 @@ def concretise(js, variable_gain):
     if c['useOwn'] and own:
         judged['variety_list'] = own
     amps = {0: judged} if pos == BETWEEN else {k: ({'type_variety': 'helper'} if k != pos else judged) for k in range(3)}
+    co = companion_of(c) if companion else None
+    if co is not None:
+        # the companion: same lists, same required gain (span loss c.g) and power (no operator VOA), a plain fibre in
+        # front of it whose loss coefficient puts it in the opposite Raman situation
+        raman_ok = c['prevFiber'] and c['lossCoef'] < c['ramanLimit']
+        k = 0.3 if raman_ok else 0.2
+        spans[co - 1] = [dict(kind='fiber', length_km=(db(c['g']) - 0.5) / k, loss_coef=k)]
+        amps[co] = {'variety_list': own} if c['useOwn'] and own else {}
     rdm = [mname(a) for a in lib if a['rdm']]
     ra = {'params': {'target_pch_out_db': -g if pos in (BOOSTER, BETWEEN) else -20.0}}
     rb = {'params': {}}
@@ -135,32 +154,47 @@ def concretise(js, variable_gain):
     return eq, U.line_topology(spans, roadm_a=ra, roadm_b=rb, amps=amps, reverse=False, head=head)
 
 
-def run_case(js, variable_gain, tag):
-    """design the concretised line; returns (chosen model name or 'refused' or 'EXC ...', trace for TLC or None)"""
+def run_case(js, variable_gain, tag, companion=True):
+    """design the concretised line; returns (chosen model name or 'refused' or 'EXC ...', trace for TLC or None, error
+    text or None, traces of the other auto-designed amplifiers of the line).  The line is first designed with the
+    companion amplifier; when the companion's own outcome changes what the judged amplifier is asked for (the design
+    stops at the companion, or the companion cannot deliver its power and the judged amplifier downstream has to make up
+    for it) the line is designed again without it."""
     from gnpy.core.exceptions import ConfigurationError
-    eq, topo = concretise(js, variable_gain)
     c = js['c']
+    companion = companion and companion_of(c) is not None
+    eq, topo = concretise(js, variable_gain, companion)
     try:
         net, ref, rec = U.design_json(topo, eq)
     except ConfigurationError as e:
         # "no amplifier found": a refusal.  The trace carries the library as the harness reads it.
         uid = JUDGED_UID[c['pos']]
         if uid not in str(e):
+            if companion:
+                return run_case(js, variable_gain, tag, companion=False)
             raise Machinery(f'{tag}: the design failed outside the judged amplifier: {e}')
         names, lib = U.library_models(eq, db(c['g']), [mname(a) for a in js['lib'] if a['own'] and c['useOwn']],
                                       [mname(a) for a in js['lib'] if a['rdm'] and c['hasRdm']])
         ctx = dict(g=c['g'], p=c['p'], ext=c['ext'], hasOwn=int(c['hasOwn']), hasRdm=int(c['hasRdm']), bfmin=c['bfmin'],
                    bfmax=c['bfmax'], prevFiber=int(c['prevFiber']), lossCoef=c['lossCoef'], ramanLimit=c['ramanLimit'])
         return 'refused', dict(name=tag, kind=0, jp=1, c=ctx, lib=lib, chosen=0, refused=1, hasList=0, groups=[],
-                               ptype=U.NONE, named=U.NONE, members=[], sels=[]), str(e)
+                               ptype=U.NONE, named=U.NONE, members=[], sels=[]), str(e), []
     except Exception as e:                                               # noqa
-        return f'EXC {type(e).__name__}', None, str(e)
+        return f'EXC {type(e).__name__}', None, str(e), []
     tr, cx = U.selection_traces(net, eq, rec, tag)
     uid = JUDGED_UID[c['pos']]
     mine = [(t, x) for t, x in zip(tr, cx) if x['uid'] == uid]
     if len(mine) != 1:
         raise Machinery(f'{tag}: {len(mine)} selections recorded for the judged amplifier')
     t, x = mine[0]
+    others = [o for o, y in zip(tr, cx) if y['uid'] != uid]
+    if len(others) != (1 if companion else 0):
+        raise Machinery(f'{tag}: {len(others)} selections recorded besides the judged amplifier')
+    if companion and (abs(t['c']['g'] - c['g']) > 5 or abs(t['c']['p'] - c['p']) > 5) and \
+            any(s['reduction'] for s in rec.select_calls if s['uid'] != uid):
+        return run_case(js, variable_gain, tag, companion=False)
+    for o in others:
+        o['name'] = tag + 'co'
     t['name'] = tag
     # the selection must have been asked for the gain and total power the line requires (the case's g and p); the
     # trace is judged against the REQUIRED values
@@ -168,7 +202,7 @@ def run_case(js, variable_gain, tag):
     if abs(t['c']['g'] - c['g']) > 5 or abs(t['c']['p'] - c['p']) > 5:
         err = f'selection called with g={t["c"]["g"]} p={t["c"]["p"]} (micro-dB), the line requires g={c["g"]} p={c["p"]}'
     t['c']['g'], t['c']['p'] = c['g'], c['p']
-    return x['chosen'], t, err
+    return x['chosen'], t, err, others
 
 
 def describe(js):
@@ -176,7 +210,8 @@ def describe(js):
     return dict(g=db(c['g']), p=db(c['p']), position=POS_NAMES[c['pos']], fibre=['0.2 dB/km', '0.3 dB/km', '0.30..0.24 dB/km'][c['fibre']],
                 useOwn=c['useOwn'], useRdm=c['useRdm'], roadm_lists=['booster+preamp', 'booster only', 'preamp only'][c['rdmSide']],
                 surroundings=['plain', 'Fused element directly before', 'operator out_voa 1 dB',
-                              'design band on a 37.5 GHz grid (13 channels)'][c['variant']],
+                              'design band on a 37.5 GHz grid (13 channels)', 'target_extended_gain 1 dB'][c['variant']],
+                extended_gain=db(c['ext']),
                 library=[{k: (db(a[k]) if k in ('gmin', 'flat', 'pmax', 'nf0', 'nf') else a[k])
                           for k in ('name', 'id', 'gmin', 'flat', 'pmax', 'nf0', 'nf', 'raman', 'fmin', 'own', 'rdm', 'alw')}
                          for a in sorted(js['lib'], key=lambda m: m['id'])],
@@ -407,12 +442,14 @@ def finish_b3(chk, traces, ctxs):
 
 def run(chk):
     b2_traces = []
-    n = n_ok = n_open = n_vg = 0
+    n = n_ok = n_open = n_vg = n_co = 0
     exercised = dict(own_list=0, roadm_list=0, allowed=0, raman_capable=0, raman_blocked=0, narrow_band=0,
                      several_capable=0, none_capable=0, refusal_admitted=0, below_min_gain_allowance=0,
                      band_edge_model_is_the_choice=0, quieter_raman_lacks_power=0, mixed_loss_fibre_blocks_quieter_raman=0,
                      between_roadms_preamp_list_only=0, fused_before_blocks_quieter_raman=0,
-                     fused_after_roadm_lifts_booster_list=0, operator_voa_needs_more_power=0, nf_within_a_tenth_of_a_db=0, own_grid_needs_more_power=0)
+                     fused_after_roadm_lifts_booster_list=0, operator_voa_needs_more_power=0, nf_within_a_tenth_of_a_db=0, own_grid_needs_more_power=0,
+                     quieter_model_a_tenth_of_a_db_short_of_power=0, small_extended_gain_padded_model_is_the_choice=0,
+                     companion_differs_in_raman_only=0)
     mism = []
     for b in BOUNDS[chk.tier]:
         r = tlc.run('MC_AmpSelection', cfg_text=mc_cfg(b), timeout=2400, tag='c10-mc')
@@ -423,7 +460,9 @@ def run(chk):
             key = json.dumps([sorted(a['id'] for a in js['lib']), c['g'], c['pos'], c['fibre'], c['useOwn'], c['useRdm'], c['rdmSide'], c['variant']])
             n += 1
             tag = 'B2#' + format(zlib.crc32(key.encode()), '08x')
-            got, trace, err = run_case(js, False, tag)
+            got, trace, err, others = run_case(js, False, tag)
+            b2_traces += others
+            n_co += len(others)
             names = {mname(a): a['id'] for a in js['lib']}
             ok = (got == 'refused' and js['mayRefuse']) or (got in names and names[got] in js['adm'])
             if err and not got.startswith('EXC') and got != 'refused':
@@ -440,7 +479,7 @@ def run(chk):
             # the same line with the library turned into variable-gain models: judged by the trace specification only
             # (always when the NF ranking decides between several capable models, else for every third capable case)
             twin = len(js['cap']) > 1 or (js['cap'] and n % 3 == 0)
-            got2, trace2, err2 = run_case(js, True, tag + 'vg') if twin else ('skipped', None, None)
+            got2, trace2, err2, _ = run_case(js, True, tag + 'vg', companion=False) if twin else ('skipped', None, None, [])
             if trace2 is not None:
                 trace2['open'] = 0
                 b2_traces.append(trace2)
@@ -472,6 +511,17 @@ def run(chk):
                 and any(a['raman'] and a['nf'] < best and a['pmax'] > c['p'] for a in js['lib'])
             exercised['fused_after_roadm_lifts_booster_list'] += c['variant'] == 1 and c['pos'] in (BOOSTER, BETWEEN) and \
                 c['useRdm'] and not c['hasRdm'] and not c['hasOwn'] and any(a['rdm'] for a in js['lib'])
+            exercised['quieter_model_a_tenth_of_a_db_short_of_power'] += bool(js['cap']) and any(
+                c['p'] - 300000 < a['pmax'] < c['p'] and a['nf'] < best for a in js['lib']) and all(
+                a['pmax'] < c['p'] + 300000 for a in js['lib'] if a['id'] in js['cap'])
+            exercised['small_extended_gain_padded_model_is_the_choice'] += c['ext'] < 3000000 and len(js['cap']) > 1 and any(
+                a['id'] in js['adm'] and a['gmin'] - 3000000 < c['g'] < a['gmin'] - c['ext'] for a in js['lib'])
+            # the companion is asked for the same targets among the same candidates, only Raman is allowed for one of them
+            # (read from the generated case, not from what the design did: no operator VOA on the judged amplifier only, no
+            # ROADM preamp list that applies to the preamp of the pair only)
+            exercised['companion_differs_in_raman_only'] += companion_of(c) is not None and bool(js['cap']) and \
+                c['variant'] != 2 and not (c['useRdm'] and c['rdmSide'] in (0, 2) and any(a['rdm'] for a in js['lib'])) and \
+                any(a['raman'] and a['id'] in js['cap'] for a in js['lib'])
             exercised['band_edge_model_is_the_choice'] += bool(js['cap']) and any(
                 a['fmax'] == c['bfmax'] and a['id'] in js['adm'] for a in js['lib'])
             exercised['quieter_raman_lacks_power'] += bool(js['cap']) and ramanok and any(
@@ -503,7 +553,13 @@ def run(chk):
             continue                                     # already reported with the model's expectation
         if t.get('open'):
             continue
-        if t['name'].endswith('vg'):
+        if t['name'].endswith('co'):
+            # the second selection of the design (the companion amplifier), judged on its own context
+            clause = '+'.join(sorted({c for _, c in v['viol']}))
+            src = 'own' if t['c']['hasOwn'] else ('roadm' if t['c']['hasRdm'] else 'allowed')
+            chk.violation(f'B2co|{clause}|list={src}', dict(trace=t['name'], viol=v['viol'], context=t['c'], library=t['lib'],
+                                                            chosen=t['chosen']))
+        elif t['name'].endswith('vg'):
             clause = '+'.join(sorted({c for _, c in v['viol']}))
             src = 'own' if t['c']['hasOwn'] else ('roadm' if t['c']['hasRdm'] else 'allowed')
             chk.violation(f'B2vg|{clause}|list={src}', dict(trace=t['name'], viol=v['viol'], context=t['c'], library=t['lib'],
@@ -516,6 +572,7 @@ def run(chk):
     chk.cov['b2_choices_admissible'] = n_ok
     chk.cov['b2_open_min_gain_cases_unjudged'] = n_open
     chk.cov['b2_variable_gain_twins_judged_by_trace'] = n_vg
+    chk.cov['b2_companion_selections_judged_by_trace'] = n_co
     chk.cov['b2_clauses_exercised'] = exercised
     b3 = finish_b3(chk, b3_traces, b3_ctx)
     check_corrupted(muts, chk)
